@@ -148,3 +148,16 @@ from . import e_ready
           'view code is guarded on its path (interval/sign analysis with integer lower bounds) or is in a reviewed exception table. ' + PARTIAL)
 def c08(F, R, tier):
     e_ready.run_c08(F, R, tier)
+
+
+from . import e_rolling
+
+
+@register('C13', 'other',
+          'Rolling statistics, structural clauses on the value graph: WelfordRolling n := n+1, mean := mean + (x−mean)/n_after, '
+          's := s + (x−mean_before)(x−mean_after), output sqrt(s/n) for n > 1; Drawdown: peak is the running maximum, the trough '
+          'is reset on a new peak, max drawdown is the running maximum of (peak−trough)/peak formed after both register updates '
+          '(decided per joint case of the three registers); LnReturn: two-step symbolic composition update(x1);update(x2);last() = '
+          'Some(ln(x2/x1)) from any prior state. ' + PARTIAL)
+def c13(F, R, tier):
+    e_rolling.run_c13(F, R)
